@@ -64,18 +64,26 @@ pub fn run_query(ctl: &Arc<Ctl>, sc: &Value, ns: usize, sched: Option<&Vec<Value
         store.add_track(build(&plan, t)).expect("add");
     }
     // merge histories are no part of a distance query (StoreConc.tla has no such component): in half of the scenarios the
-    // first stored track has, before the query, absorbed the HISTORY of an external track without observations that carries
+    // first stored track has, before the query, absorbed the HISTORY of an external track (one observation of a class no scenario queries) that carries
     // the id of a candidate of the query (nothing else changes: no observation is merged)
     let stored: Vec<&Value> = jarr(sc, "tracks").iter().collect();
     let cands = jarr(sc, "cands");
     if !stored.is_empty() && !cands.is_empty() && (stored.len() + cands.len() + jint(sc, "limit") as usize) % 2 == 0 {
         let first = jint(stored[0], "id");
         if let Some(cid) = cands.iter().map(|c| jint(c, "id")).find(|c| *c != first) {
-            let mut helper = stored[0].clone();
-            helper["id"] = json!(cid);
-            helper["obs"] = json!({});
-            let helper = build(&plan, &helper);
-            store.merge_external(first as u64, &helper, None, true).expect("history-only merge");
+            // (a merge that merges nothing leaves the history alone: the helper carries one observation of a class no
+            //  scenario queries)
+            let mut attrs = Attrs::new(plan.clone());
+            attrs.tag = jint(stored[0], "tag");
+            attrs.st = St::parse(jstr(stored[0], "st"));
+            let helper = TrackBuilder::new(cid as u64)
+                .attributes(attrs)
+                .metric(Metric::new(100, plan.clone()))
+                .notifier(CountNotifier::default())
+                .observation(ObservationBuilder::new(7).observation_attributes(Val(1)).build())
+                .build()
+                .expect("helper track");
+            store.merge_external(first as u64, &helper, None, true).expect("history merge");
         }
     }
     let owned = jbool(sc, "owned");
